@@ -30,7 +30,8 @@ def log(*a):
 
 def build(prop, spec):
     os.makedirs(BUILD, exist_ok=True)
-    out = os.path.join(BUILD, prop.lower() + (".race" if spec.get("race") else "") + ".test")
+    # one binary per invocation: concurrent runs of the same property (tiers, seeds) must not overwrite each other's executable
+    out = os.path.join(BUILD, "%s%s.%d.test" % (prop.lower(), ".race" if spec.get("race") else "", os.getpid()))
     cmd = ["go", "test", "-c", "-tags", "verif", "-vet=off", "-o", out]
     if spec.get("race"):
         cmd.append("-race")
@@ -98,6 +99,10 @@ def main():
     finally:
         if not a.keep:
             shutil.rmtree(scratch, ignore_errors=True)
+        try:
+            os.remove(binary)
+        except OSError:
+            pass
 
 
 def base_env(a, prop, seed, scratch, shard, tag):
@@ -105,8 +110,9 @@ def base_env(a, prop, seed, scratch, shard, tag):
     os.makedirs(wd, exist_ok=True)
     env = dict(VERIF_TIER=a.tier, VERIF_SEED=str(seed), VERIF_SHARD=str(shard), VERIF_ROOT=ROOT,
                VERIF_FRAGMENT=os.path.join(wd, "fragment.json"), VERIF_WORKDIR=wd, TMPDIR=wd, VERIF_REPO=REPO)
-    if a.pct:
-        env["VERIF_CHECKS_PCT"] = str(a.pct)
+    pct = a.pct or PROPS[prop].get(a.tier, {}).get("pct")
+    if pct:
+        env["VERIF_CHECKS_PCT"] = str(pct)
     return env, wd
 
 
